@@ -9,7 +9,7 @@
      H empty_json = empty_json_digest   (the digest of "{}" is the constant of image-spec)
    Where a statement needs the digest to be collision-free this is an explicit
    premise of that clause. *)
-From Oras Require Import Base.Prelude Base.Regex Generated.GC19 Model.Pack Proofs.Pack.
+From Oras Require Import Base.Prelude Base.Regex Generated.GC19 Model.Pack Proofs.Pack Proofs.PackTime.
 
 (* The media-type check accepts exactly RFC 6838 section 4.2:
    restricted-name "/" restricted-name, each 1..127 characters. *)
@@ -69,6 +69,40 @@ Theorem C19_bad_created_no_manifest :
     only_empty_blob_added H (s_store s) (s_store s').
 Proof. exact bad_created_no_manifest. Qed.
 Print Assumptions C19_bad_created_no_manifest.
+
+(* The created validation accepts exactly the RFC 3339 section 5.6 date-times written with
+   upper-case "T"/"Z" and without leap second (field ranges and month lengths included) ... *)
+Theorem C19_created_grammar :
+  forall s, rfc3339_ok s = true <-> RFC3339_go s.
+Proof. exact rfc3339_ok_spec. Qed.
+Print Assumptions C19_created_grammar.
+
+(* ... hence refuses everything that is not an RFC 3339 date-time ... *)
+Theorem C19_malformed_created_refused :
+  forall s, ~ RFC3339 s -> rfc3339_ok s = false.
+Proof. exact malformed_refused. Qed.
+Print Assumptions C19_malformed_created_refused.
+
+(* ... so a created annotation that is not RFC 3339 gives an error and no manifest push. *)
+Theorem C19_malformed_created_no_manifest :
+  forall (marshal : manifest -> str) (H : str -> str), H empty_json = empty_json_digest ->
+  forall f tc fa s at_ o now s' r v,
+    ann_get (created_key f) (o_ann o) = Some v -> ~ RFC3339 v ->
+    pack marshal H f tc fa s at_ o now = (s', r) ->
+    (exists e, r = Err e /\ (must_reject f at_ o = false -> fa = None -> e = EInvalidDateTime)) /\
+    (exists evs, steps s s' evs /\ Forall (blob_ev H) evs) /\
+    only_empty_blob_added H (s_store s) (s_store s').
+Proof. exact malformed_created_no_manifest. Qed.
+Print Assumptions C19_malformed_created_no_manifest.
+
+(* History: before the fix recorded in known_findings.d/C19.json the validation was
+   time.Parse(time.RFC3339, _) alone (rfc3339_ok_prefix), which takes strings that are not
+   RFC 3339 -- the witness has a one-digit hour; replayed on the pre-fix tree it is accepted
+   and ends up in the pushed manifest (corpus/C19/created-lenient.json). *)
+Theorem C19_created_prefix_refuted :
+  exists s, rfc3339_ok_prefix s = true /\ ~ RFC3339 s.
+Proof. exact prefix_refuted. Qed.
+Print Assumptions C19_created_prefix_refuted.
 
 (* Success: the manifest is exactly the requested one (placeholders included), the
    descriptor is that of its bytes, the storage operations were operations on "{}" followed
@@ -226,6 +260,15 @@ Example ex_times :
   rfc3339_ok (b "1900-02-29T00:00:00Z") = false /\
   rfc3339_ok (b "2006-01-02T15:04:05") = false.
 Proof. vm_compute. repeat split; reflexivity. Qed.
+
+Example ex_rfc3339 :
+  RFC3339 (b "2024-02-29T23:59:59.5+07:30") /\ ~ RFC3339 (b "2006-01-02T1:04:05Z") /\
+  RFC3339_go (b "2006-01-02T15:04:05Z").
+Proof.
+  split; [apply accepted_is_rfc3339; vm_compute; reflexivity|].
+  split; [intro R; apply RFC3339_shape in R; vm_compute in R; discriminate|].
+  apply rfc3339_ok_spec. vm_compute. reflexivity.
+Qed.
 
 Example ex_media_types :
   RFC6838 (b "application/vnd.oci.image.manifest.v1+json") /\ ~ RFC6838 (b "application/x y") /\
